@@ -345,7 +345,13 @@ def rule_PL3(ctx, tier):
     d = P.require(PDBM + "delete_pending_appointment")
     tx = sites_containing(d, "Connection", "transaction")
     q = sites_containing(d, "query_row")
-    if tx and q and all(all(x in d.reachable(y) for x in tx) for y in q):
+    from . import sql as _sql
+    from .rules_sql import _orphans_only
+    bodydel = [st for bb_, st in _sql.body_sql(d) if _sql.classify(st)["kind"] == "delete" and _sql.classify(st).get("table") == "appointments"]
+    if tx and not q and bodydel and all(_orphans_only(st) for st in bodydel):
+        # no count at all: the body delete itself is restricted to bodies nothing refers to (judged by SQ5c)
+        rr.ok("no reference count: the body delete is restricted to unreferenced bodies inside the transaction")
+    elif tx and q and all(all(x in d.reachable(y) for x in tx) for y in q):
         rr.ok("reference count read before the delete transaction")
     else:
         rr.fail("count-after-delete", "delete_pending_appointment does not count the references before opening the delete transaction", where=d.span)
